@@ -372,6 +372,8 @@ impl Server {
         
         loop {
             let mut did_work = false;
+            #[cfg(ferrous_verif)]
+            VERIF_LOOP_ITERATIONS.fetch_add(1, Ordering::SeqCst);
             
             // Process wake-up queue first (very fast, lock-free)
             did_work |= self.process_wakeups()?;
@@ -1488,6 +1490,8 @@ impl Server {
                 // SCRIPT commands need script cache access
                 self.handle_script_command(parts)
             },
+            #[cfg(ferrous_verif)]
+            "VERIF" => self.handle_verif(parts),
             _ => Ok(RespFrame::error(format!("ERR unknown command '{}'", command_name))),
         };
         
@@ -3410,5 +3414,57 @@ impl Server {
         }
         
         Ok(())
+    }
+}
+
+/// Verification hooks (add-only, compiled only with --cfg ferrous_verif)
+#[cfg(ferrous_verif)]
+pub static VERIF_LOOP_ITERATIONS: AtomicU64 = AtomicU64::new(0);
+
+#[cfg(ferrous_verif)]
+impl Server {
+    /// VERIF <sub> ...: read-only views of internal state and control of the sweeper schedule
+    fn handle_verif(&mut self, parts: &[RespFrame]) -> Result<RespFrame> {
+        use crate::storage::engine::verif as ev;
+        let arg = |i: usize| -> String {
+            match parts.get(i) { Some(RespFrame::BulkString(Some(b))) => String::from_utf8_lossy(b).to_uppercase(), _ => String::new() }
+        };
+        let num = |i: usize| -> usize { arg(i).parse::<usize>().unwrap_or(0) };
+        let int = |n: i64| RespFrame::Integer(n);
+        match (arg(1).as_str(), arg(2).as_str()) {
+            ("SWEEP", "PAUSE") => { ev::SWEEP_PAUSED.store(1, Ordering::SeqCst); Ok(RespFrame::ok()) }
+            ("SWEEP", "RESUME") => { ev::SWEEP_PAUSED.store(0, Ordering::SeqCst); Ok(RespFrame::ok()) }
+            ("SWEEP", "STEP") => { ev::SWEEP_STEPS.fetch_add(1, Ordering::SeqCst); Ok(RespFrame::ok()) }
+            ("SWEEP", "GATE") => { ev::SWEEP_GATE.store(1, Ordering::SeqCst); Ok(RespFrame::ok()) }
+            ("SWEEP", "RELEASE") => { ev::SWEEP_GATE.store(0, Ordering::SeqCst); Ok(RespFrame::ok()) }
+            ("SWEEP", "ATGATE") => Ok(int(ev::SWEEP_AT_GATE.load(Ordering::SeqCst) as i64)),
+            ("SWEEP", "PASSES") => Ok(int(ev::SWEEP_PASSES.load(Ordering::SeqCst) as i64)),
+            ("ITER", _) => Ok(int(VERIF_LOOP_ITERATIONS.load(Ordering::SeqCst) as i64)),
+            ("INDEX", _) => {
+                let rows = self.storage.verif_dump_index(num(2));
+                Ok(RespFrame::Array(Some(rows.into_iter().map(|(k, stored, indexed, present)| {
+                    RespFrame::Array(Some(vec![RespFrame::from_bytes(k), int(stored), int(indexed), int(present as i64)]))
+                }).collect())))
+            }
+            ("WATCH", _) => {
+                let rows = self.storage.verif_dump_watch(num(2));
+                Ok(RespFrame::Array(Some(rows.into_iter().map(|(shard, active, cs)| {
+                    let mut v = vec![int(shard as i64), int(active as i64)];
+                    for (k, c) in cs { v.push(RespFrame::from_bytes(k)); v.push(int(c as i64)); }
+                    RespFrame::Array(Some(v))
+                }).collect())))
+            }
+            ("BLOCKING", _) => {
+                let (rows, qlen) = self.blocking_manager.verif_dump();
+                let mut v = vec![int(qlen as i64)];
+                for (db, k, ids) in rows {
+                    let mut r = vec![int(db as i64), RespFrame::from_bytes(k)];
+                    for id in ids { r.push(int(id as i64)); }
+                    v.push(RespFrame::Array(Some(r)));
+                }
+                Ok(RespFrame::Array(Some(v)))
+            }
+            _ => Ok(RespFrame::error("ERR unknown VERIF subcommand")),
+        }
     }
 }
